@@ -91,7 +91,13 @@ void h_rel_toMatrix (void)
 /* relational: extract from a 3x3 and from a 4x4 with the same block give identical angles */
 void h_rel_extract (void)
 {
+#ifdef ORDC /* one unit per order: the order is a constant, so the axis indices are constants */
+    VF_IN (float, in_x); VF_IN (float, in_y); VF_IN (float, in_z);
+    EU e; memset (&e, 0, sizeof e); e._base.x = in_x; e._base.y = in_y; e._base.z = in_z;
+    e._initialAxis = O_AXIS (ORDC); e._parityEven = O_EVEN (ORDC); e._initialRepeated = O_REP (ORDC); e._frameStatic = O_STATIC (ORDC);
+#else
     IN_EU (e);
+#endif
     VF_IN_ARR (float, in_m, 9);
     struct Matrix33_float a; struct Matrix44_float b; memset (&b, 0, sizeof b);
     for (int i = 0; i < 3; i++) for (int j = 0; j < 3; j++) { a.x[i][j] = in_m[3 * i + j]; b.x[i][j] = in_m[3 * i + j]; }
